@@ -602,12 +602,18 @@ def minimize_subcircuits(
             logger.debug("Replacement doesn't reduce the circuit")
             continue
 
+        # labels of the old cone that the (smaller) replacement did not reuse.
+        vanished_gates = [label for label in circuit.gates if label not in new_circuit.gates]
+
         circuit = new_circuit
         logger.debug("Improved circuit size")
 
         # Update the states
         for output in output_labels_mapping:
             node_states[output] = _NodeState.REMOVED
+
+        for gate in vanished_gates:
+            node_states[gate] = _NodeState.REMOVED
 
         for gate in _get_internal_gates(
             circuit,
